@@ -49,12 +49,15 @@ Good(PP) == P' = PP /\ njudged' = njudged + 1 /\ UNCHANGED <<dead, tid, kind>>
 Init == P = Empty /\ l = 1 /\ tid = 0 /\ dead = FALSE /\ nbad = 0 /\ njudged = 0 /\ nreused = 0 /\ kind = "int8" /\ ncyc = 0
 
 (* C18: a warmed-up get/put cycle with one buffer outstanding performs no allocation.  The budget is a  *)
-(* function of the model state: -1 (unconstrained) for a Get that misses, for the first cycles (sync.Pool *)
-(* sets up its per-P storage) and whenever another buffer is outstanding.                                 *)
+(* function of the model state: -1 (unconstrained) for the first cycles (sync.Pool sets up its per-P      *)
+(* storage), whenever another buffer is outstanding, and for a Get from an empty pool.  Allocation counts   *)
+(* are only logged (allocs >= 0) by the measuring recorder: one goroutine, one P, collector off - there    *)
+(* sync.Pool returns what was put, so a warmed-up Get from a non-empty pool that allocates a new buffer    *)
+(* (the pool declined to keep the one that was put) is over budget as well.                                *)
 Warm == ncyc >= 3
 NoneHeld == \A g \in DOMAIN P.held : P.held[g] = {}
 OnlyHeld(id) == \A g \in DOMAIN P.held : P.held[g] \subseteq {id}
-Budget(e) == IF e.op = "Get" /\ e.reused = 1 /\ Warm /\ NoneHeld THEN 0
+Budget(e) == IF e.op = "Get" /\ (e.reused = 1 \/ P.free # {}) /\ Warm /\ NoneHeld THEN 0
              ELSE IF e.op = "Put" /\ Warm /\ OnlyHeld(e.id) THEN 0 ELSE -1
 OverBudget(e) == e.allocs >= 0 /\ Budget(e) >= 0 /\ e.allocs > Budget(e)
 CountAlloc(e) == IF OverBudget(e)
